@@ -261,7 +261,16 @@ def main(argv=None):
         print("NOTE monitor transparency: %d of %d re-runs without the walker gave other verdicts (%s)"
               % (counters["transparency_mismatches"], counters.get("transparency_reruns", 0),
                  "; ".join(sorted(notes.get("transparency_mismatch", []))[:2])))
+    allknown = []
+    try:
+        with open(os.path.join(VERIF, "known_findings.json")) as f:
+            allknown = [e for e in json.load(f).get("findings", []) if e.get("status") == "known"]
+    except Exception:
+        pass
     for k, n in sorted(bystanders.items()):
+        bp, bk = k.split(" ", 1)
+        if any(e["property"] == bp and fnmatch.fnmatchcase(bk, e["key"]) for e in allknown):
+            continue        # a recorded finding of the other property (printed by its own check)
         print("NOTE bystander %s (x%d)" % (k, n))
         if a.show_bystanders and k in bystander_samples:
             print("   " + str(bystander_samples[k]["detail"]).replace("\n", "\n   "))
